@@ -116,7 +116,7 @@ func c03r7(r *R) {
 // isRequestTerm: the term d ("$1.Body", "^0.Body") is a field of a *http.Request parameter or capture of f.
 func isRequestTerm(f *ssa.Function, d string) bool {
 	base := strings.TrimSuffix(d, ".Body")
-	for i, p := range f.Params {
+	for i, p := range refParams(f) {
 		if base == fmt.Sprintf("$%d", i) && typeStr(p.Type()) == "*net/http.Request" {
 			return true
 		}
@@ -148,8 +148,15 @@ func c09r9(r *R) {
 			}
 			extra = append(extra, g)
 		}
-		arg := describe(c.Common().Args[len(c.Common().Args)-1])
-		good := isData && len(extra) == 0 && arg == "$1.(*golang.org/x/net/http2.DataFrame)" && describe(c.Common().Args[0]) == "$0.peer"
+		arg := describe(refArgs(c.Common())[len(c.Common().Args)-1])
+		const F = "$1.(*golang.org/x/net/http2.DataFrame)"
+		argsOK := true // the frame itself, or (C09.R5 says which is which) values read from its header
+		for _, a := range c.Common().Args[1:] {
+			if d := describe(a); d != F && !strings.Contains(d, F+".FrameHeader") {
+				argsOK = false
+			}
+		}
+		good := isData && len(extra) == 0 && argsOK && describe(refArgs(c.Common())[0]) == "$0.peer"
 		r.check(good, "processFrame#credit(DATA)", c.Pos(), "every DATA frame is credited back through the peer relay", "the credit for a DATA frame is sent only when "+strings.Join(extra, " ∧ ")+" (frame "+arg+"): octets of frames that fail the test are never credited back, the sender's connection window shrinks for good")
 	})
 	if n == 0 {
@@ -263,7 +270,7 @@ func c10r11(r *R) {
 				return
 			}
 			seen[cn]++
-			recv := describe(c.Common().Args[0])
+			recv := describe(refArgs(c.Common())[0])
 			onPeer := strings.HasSuffix(recv, ".peer")
 			underID := guardedBy(c.Block(), func(g string) bool {
 				return !strings.HasPrefix(g, "!") && strings.Contains(g, ".ID == "+id+")")
@@ -299,8 +306,8 @@ func c10r12(r *R) {
 			return
 		}
 		n++
-		v, isC := constInt(c.Common().Args[1])
-		r.check(isC && v == 4294967295, "newRelay#"+cn[strings.LastIndex(cn, ".")+1:], c.Pos(), "no private cap on the HPACK dynamic table", fmt.Sprintf("HPACK table limit is %s while the endpoints' SETTINGS_HEADER_TABLE_SIZE is forwarded unchanged: a size update above it is a decoding error that stops this direction", describe(c.Common().Args[1])))
+		v, isC := constInt(refArgs(c.Common())[1])
+		r.check(isC && v == 4294967295, "newRelay#"+cn[strings.LastIndex(cn, ".")+1:], c.Pos(), "no private cap on the HPACK dynamic table", fmt.Sprintf("HPACK table limit is %s while the endpoints' SETTINGS_HEADER_TABLE_SIZE is forwarded unchanged: a size update above it is a decoding error that stops this direction", describe(refArgs(c.Common())[1])))
 	})
 	if n < 2 {
 		r.bad("newRelay#hpack-limits", nr.Pos(), "decoder/encoder table limits are not raised: the library default (4096) rejects the table sizes browsers announce")
@@ -313,7 +320,7 @@ func c13r7(r *R) {
 	var dialTerm, closeTerm string
 	eachInstr(dc, func(ins ssa.Instruction) {
 		if c, ok := ins.(*ssa.Call); ok && calleeName(c.Common()) == "(*forwarder.dialerMetrics).dial" {
-			a := c.Common().Args[1]
+			a := refArgs(c.Common())[1]
 			dialTerm = describe(a)
 			if u, ok := a.(*ssa.UnOp); ok && u.Op == token.MUL {
 				dialAlloc = u.X
@@ -324,7 +331,7 @@ func c13r7(r *R) {
 		if mc, ok := ins.(*ssa.MakeClosure); ok {
 			lit := mc.Fn.(*ssa.Function)
 			for _, c := range calls(lit, nameIs("(*forwarder.dialerMetrics).close")) {
-				a := c.Common().Args[1]
+				a := refArgs(c.Common())[1]
 				closeTerm = describe(a)
 				if u, ok := a.(*ssa.UnOp); ok && u.Op == token.MUL {
 					if fv, ok := u.X.(*ssa.FreeVar); ok {
